@@ -53,6 +53,9 @@ CONF = {
                 model=[("session", 400, 4000), ("syncfaults", 200, 2500), ("overflow", 300, 3000), ("sync", 150, 1500), ("throw", 250, 2500)],
                 monitor_only=[("sessionfaulty", 400, 4000), ("faultyctx", 250, 2500), ("faultysync", 250, 2500)],
                 big=[("session", 300, 3000)], fresh=True),
+    "C12": dict(prefixes=("C12.",), builds=("pure",),
+                model=[("dedup", 500, 5000), ("dedupdirty", 700, 7000), ("dedupsync", 300, 3000)],
+                big=[("dedupdirty", 500, 5000)]),
 }
 
 
@@ -101,6 +104,9 @@ def nontrivial(pid, ev):
             (names.count("Resume") >= 3 and any(e["e"] == "Read" for e in ev))
     if pid == "C08":
         return names.count("CallEnd") >= 2 or "SyncEnd" in names
+    if pid == "C12":
+        return any(e["e"] == "DedupCall" and e["a"] != e["b"] for e in ev) or \
+            (names.count("DedupCall") >= 2 and "Dirty" in names)
     return True
 
 
@@ -113,6 +119,7 @@ RULES = {
     "C06": "non-trivial = some context was paused by suspension of its task (not by leaving the block)",
     "C07": "non-trivial = a scoped read returned an overridden value, or >= 3 resumes with a read",
     "C08": "non-trivial = a session of >= 2 computations on one scheduler, or a nested synchronous call",
+    "C12": "non-trivial = some call was handed an in-flight task of another call site, or >= 2 calls with a dirty() in the history",
 }
 
 
@@ -203,6 +210,10 @@ def main():
                 desc = "all tree programs with <=2 tasks x <=2 yields, <=3 tasks (children 1 yield), <=4 tasks x 1 yield; <=2 leaves/yield, 2 kinds, 3 priority assignments"
             fam += [("enum", p) for p in en]
             cov["enumerated_family"] = "%s: %d programs, every one model-checked under all schedules and replayed" % (desc, len(en))
+        if pid == "C12":
+            en = plang.enum_dedup(3, (1, 2), 2) if tier == "quick" else plang.enum_dedup(3, (1, 2, 3), 2) + plang.enum_dedup(2, (1, 2), 3)
+            fam += [("enum_dedup", p) for p in en]
+            cov["enumerated_family"] = "root yields [D, actor..]; every actor sequence over {wait, call, dirty+call}: %d programs, all schedules" % len(en)
         progs = [p for _, p in fam]
         mc = pipeline.model_check(progs, sc, cfg="SchedExport.cfg", chunk=4000, timeout=3000, coverage=False)
         cov["states"] = mc["states"]
